@@ -8,7 +8,7 @@
 From Coq Require Import Reals Lra List Bool Arith ZArith.
 From Coquelicot Require Import Complex.
 From QV Require Import Sem Mat2 Toff2 Chain Barenco GateA McxModel LinearMcx LdmcsuModel QdmcuModel.
-From QV Require LdmcuCore LdmcuModel LdmcuInst AbcModel LdmcsuEig Transpose MultiTarget.
+From QV Require LdmcuCore LdmcuModel LdmcuInst AbcModel LdmcsuEig Transpose MultiTarget MultiTargetAll.
 Open Scope R_scope.
 
 (* CV(c->t) ; MCX(rest->c) ; CV^dagger(c->t) ; MCX(rest->c) ; C^{rest}V(t)  =  U on t controlled on rest /\ c,
@@ -118,11 +118,11 @@ Theorem C04_ldmcsu_eig : forall (k : nat), 2 <= k -> forall (pat : list bool) (M
 Proof. exact LdmcsuEig.eig_sem. Qed.
 Print Assumptions C04_ldmcsu_eig.
 
-(* MultiTargetMCSU2, general branch: k controls (k >= 8, or k >= 6 with at least two targets), nt targets k .. k+nt-1, every pattern.
-   One pair of multi-target V-chains is shared; target i has its own A_i = M (3i), A_i^dagger = M (3i+1) and, when flagged, its
-   Hadamard M (3i+2) (Hm hs i = that matrix or the identity).  The circuit applies U_i to target i, for every i, exactly on the
-   basis states whose controls match the pattern: the operator is the product over the targets of the controlled U_i. *)
-Theorem C04_multitarget : forall (k nt : nat), 1 <= nt -> 6 <= k -> (8 <= k \/ 2 <= nt) ->
+(* MultiTargetMCSU2: k >= 2 controls, nt >= 1 targets k .. k+nt-1, every pattern.  One pair of multi-target V-chains is shared (for
+   one or two controls per half: CX fans and a fanned Toffoli); target i has its own A_i = M (3i), A_i^dagger = M (3i+1) and, when
+   flagged, its Hadamard M (3i+2) (Hm hs i = that matrix or the identity).  The circuit applies U_i to target i, for every i,
+   exactly on the basis states whose controls match the pattern: the operator is the product over the targets of the controlled U_i. *)
+Theorem C04_multitarget : forall (k nt : nat), 1 <= nt -> 2 <= k ->
   forall (pat : list bool) (M : nat -> mat2) (U U' : nat -> mat2) (hs : list bool),
   (forall i, i < nt -> mmul (M (3 * i + 1)) (M (3 * i)) = I2) -> (forall i, i < nt -> mmul (M (3 * i)) (M (3 * i + 1)) = I2) ->
   (forall i, i < nt -> mmul (mmul (mmul (M (3 * i + 1)) Xm) (mmul (M (3 * i)) Xm)) (mmul (mmul (M (3 * i + 1)) Xm) (mmul (M (3 * i)) Xm)) = U' i) ->
@@ -130,5 +130,5 @@ Theorem C04_multitarget : forall (k nt : nat), 1 <= nt -> 6 <= k -> (8 <= k \/ 2
   (forall i, i < nt -> mmul (MultiTarget.Hm M hs i) (mmul (U' i) (MultiTarget.Hm M hs i)) = U i) ->
   forall psi, AbcModel.arun M (MultiTarget.mtm k nt pat hs) psi
   = Transpose.comp state (map (fun it => appf (fun b => if pmatch pat k b then U (fst it) else I2) (snd it)) (MultiTarget.Lk k nt)) psi.
-Proof. exact MultiTarget.mtm_sem. Qed.
+Proof. exact MultiTargetAll.mtm_sem_all. Qed.
 Print Assumptions C04_multitarget.
